@@ -83,8 +83,11 @@ def rule_a(ctx, cls, fns):
                     same = okmin and okmax and cmin[: -len(".get_min_index()")] == cmax[: -len(".get_max_index()")]
                     level = _toplevel_subscripts(cmin[: -len(".get_min_index()")]) if okmin else -1
                     want_level = {"z": 0, "y": 1, "x": 2}.get(cname, -1)
-                    ok = bool(same) and level == want_level and mlo.group(1) == mhi.group(1)
+                    wlevel = _toplevel_subscripts(mlo.group(1))
+                    ok = bool(same) and level == want_level and mlo.group(1) == mhi.group(1) and wlevel == want_level
                     det = "%s in [max(w_min, %s - %s), min(w_max, %s - %s)]" % (dname, cmin[-40:], cname, cmax[-40:], cname)
+                    if not ok:
+                        det = "bounds of %s along %s use weights extent %s / %s and image range %s / %s: not the extents of axis %s" % (dname, cname, mlo.group(1)[-30:], mhi.group(1)[-30:], cmin[-40:], cmax[-40:], cname)
                 else:
                     det = "bounds of %s are %s .. %s, not max(w_min, c_min - %s) .. min(w_max, c_max - %s)" % (dname, lo, hi, cname, cname)
             ctx.ob("C09.a-neighbours-inside-image", f.qn + "/" + str(len(f.params)), "%s+%s" % (cname, dname), ok, s.where(), det)
